@@ -135,6 +135,38 @@ def shard_contexts(spec):
     return acc
 
 
+COMPACT = [
+    "A=1\nB=2\nC=3\nD=4\nE=5\nF=6\nG=7\nH=8\nI=9\nJ=10\nK=11\nL=12\nEND\n",
+    "k=(1.0,2.0,3.0,4.0,5.0,6.0,7.0,8.0,9.0,10.0,11.0,12.0)",
+    "GROUP=g\na=(1,2,3)<m>\nb={x,y,z}\nEND_GROUP=g\nc=\"qqqqqqqqqqqqqqqqqqqqqqqqqqqqqqqq\"\nEND",
+    "a_very_long_parameter_name_of_more_than_thirty_characters=another_long_unquoted_word",
+    "t=2001-01-01T12:00:00.123456+01:30;u=16#FFFFFFFFFFFFFFFFFFFFFFFFFFFF#;v=-1.5E+300<km/s>;",
+    "OBJECT=o;OBJECT=p;x=((1,2),(3,4));END_OBJECT=p;END_OBJECT=o;y='zzzzzzzzzzzzzzzzzzzzzzzz';",
+]
+COMPACT_FAULT_CHARS = ["}", ")", "(", "{", "\"", "'", "<", ">", ";", "=", ",", "#", "/*", "*/", "\x01", "\xe9", "-\n", " "]
+
+
+def shard_compact(spec):
+    """long texts with (almost) no white space x every single-character fault at every position:
+    errors raised far from any blank, deep inside long lexemes and long lines"""
+    ti, part, nparts = spec
+    text = COMPACT[ti]
+    acc = Acc()
+    j = 0
+    for i in range(len(text) + 1):
+        variants = [text[:i] + c + text[i:] for c in COMPACT_FAULT_CHARS]
+        if i < len(text):
+            variants += [text[:i] + c + text[i + 1:] for c in COMPACT_FAULT_CHARS[:9]]
+            variants += [text[:i] + text[i + 1:], text[:i]]
+        for t in variants:
+            j += 1
+            if j % nparts == part:
+                judge(acc, "compact", t, {})
+                acc.nontrivial += 1
+    acc.sample({"compact_text": text}, cap=1)
+    return acc
+
+
 def corpus_files():
     root = os.path.join(impl.REPO, "tests", "data")
     fs = sorted(glob.glob(os.path.join(root, "**", "*"), recursive=True))
@@ -209,6 +241,7 @@ def run(ctx):
     # field products of date / time / zone fragments (valid and invalid) as values
     ctx.pmap(shard_temporal, [(p, 32) for p in range(32)], into=acc)
     ctx.pmap(shard_contexts, [(p, 16) for p in range(16)], into=acc)
+    ctx.pmap(shard_compact, [(ti, p, 8) for ti in range(len(COMPACT)) for p in range(8)], into=acc)
     # corpus, exhaustive single faults
     files = corpus_files()
     cspecs = []
@@ -231,12 +264,13 @@ def run(ctx):
         "evaluations": acc.n, "distinct_nontrivial": acc.nontrivial,
         "rule": "every string over %r up to length %d, over %r up to length %d, over %r up to length %d; every "
                 "token sequence of length <= %d over the 18-token alphabet rendered with single spaces; every "
-                "concatenation of <= %d items of %r; every C03 context template for 7 spellings; every product of date x time x zone fragments (valid and invalid) in 4 value contexts; every single-character fault (quick: truncation at every position of files <= 250 chars, "
+                "concatenation of <= %d items of %r; every C03 context template for 7 spellings; %d long texts without white space x every position x insertion of %d fault strings / replacement / deletion / truncation; every product of date x time x zone fragments (valid and invalid) in 4 value contexts; every single-character fault (quick: truncation at every position of files <= 250 chars, "
                 "at every 3rd/12th position and every line start of longer ones, deletion in files <= 250 chars; thorough: truncation, deletion, duplication, adjacent swap) of "
                 "%d corpus files (%d characters); each through the 5 loader configurations under a step "
                 "budget of 200+60*len (x20 before a spin is reported); distinct_nontrivial counts distinct "
                 "input texts (each text is one case evaluated on 5 loaders)"
-                % (ALPHA17, nmain, ALPHA9, n9, ALPHA_ROT, nrot, k, kw, ALPHA_KW, len(cspecs) and len(files),
+                % (ALPHA17, nmain, ALPHA9, n9, ALPHA_ROT, nrot, k, kw, ALPHA_KW, len(COMPACT), len(COMPACT_FAULT_CHARS),
+                   len(cspecs) and len(files),
                    budget_chars),
         "outcome_histogram": dict(acc.outcomes),
         "samples": acc.samples[:8], "exhaustive": True,
